@@ -1578,8 +1578,9 @@ def complex_family_cases(chk, start_id, rng, tier):
 
 def complex_p2_cases(chk, start_id, rng, tier):
     """PARAFAC2 with complex (Gaussian-integer) A, B, C and projections: real orthonormal / unitary with a column times +-i / the bilinear
-    column (1, 1, i) (P^T P = 1, Hermitian length sqrt 3) / scaled.  The model runs the validator AS IT IS (P^T P = I); the predicate wants
-    'accepted iff the columns are orthonormal in the Hermitian sense' -> the classified known finding parafac2_complex_projections."""
+    column (1, 1, i) (P^T P = 1, Hermitian length sqrt 3) / scaled.  The model runs the validator AS IT IS in the current source (P^H P = I since
+    /repo 0c112da; the flag is read from the source by C03_ast.translate_p2); the predicate wants 'accepted iff the columns are orthonormal in the
+    Hermitian sense' (a VIOLATION otherwise: the former known finding parafac2_complex_projections is repaired)."""
     from tensorly import tenalg, parafac2_tensor as p2
     out = []
     EPV = "tensorly.parafac2_tensor._validate_parafac2_tensor"
@@ -1658,14 +1659,8 @@ def complex_p2_cases(chk, start_id, rng, tier):
     return out
 
 
-def clf_parafac2_complex_projections(f):
-    i = f["inputs"]
-    return i.get("kind") == "p2 (complex)" and bool(i.get("complex_projections")) and i.get("projections") in ("unitary", "bilinear")
-
-
-CLASSIFIERS["parafac2_complex_projections"] = clf_parafac2_complex_projections
-
-
+# (round 7 follow-up: _validate_parafac2_tensor tested P^T P = I - repaired in /repo by 0c112da; the classifier parafac2_complex_projections is
+# gone: the predicate of complex_p2_cases stays and any such output is a VIOLATION now; Example C03_before_0c112da_parafac2_complex_projections)
 # (round 7: cp_norm did not conjugate the second weight vector - repaired in /repo by 20cafdc; the predicate stays, any such output is a
 # VIOLATION now; the witness runs first in complex_cp_cases and is the Example C03_before_20cafdc_cp_norm_complex_weights)
 def run(chk):
